@@ -4,6 +4,7 @@ leave (at its end, where it raises, or where the process dies) is good and shows
 new item; what a successful publish / training adds.
 -/
 import ForML.Lemmas.C05Hist
+import ForML.Lemmas.C05Fault
 
 namespace ForML.Registry
 open ForML.Fs
@@ -195,6 +196,108 @@ theorem step_left (fs : Fs) (gd : Good fs) (s : Step) (x : Fs) (hx : LeftBy fs s
           exact ⟨sb.2, c5 sb hsb⟩
         · rw [hex]; exact ⟨hrun.1, hrun.2.symm⟩
 
+theorem okCount_lt_of_fail (ops : List Op) (fs : Fs) (h : (runSome fs ops).2 = false) : okCount fs ops < ops.length := by
+  induction ops generalizing fs with
+  | nil => simp [runSome] at h
+  | cons a r ih =>
+    simp only [runSome, okCount] at h ⊢
+    cases hs : step fs a with
+    | none => simp
+    | some g => rw [hs] at h; simp only [List.length_cons]; have := ih g h; omega
+
+/-- the recorded micro-operations of a publish: all of them, ending in the rename — or, when a system call failed, a
+part of those before the rename -/
+theorem publish_atoms (fs : Fs) (name v : Nat) (pkg : Pkg) (tmpOps : List Op)
+    (hsplit : pushOps ⟨true, true⟩ fs name v pkg
+      = (mkdirP fs (releaseP name v) ++ tmpOps) ++ [Op.rename (packageTmpP name v) (packageP name v)]) :
+    let atoms := atomsAll (runCalls fs [fun f => pushOps Impl.repaired f name v pkg]).calls.flatten
+    atoms = atomsAll (mkdirP fs (releaseP name v) ++ tmpOps) ++ [Op.rename (packageTmpP name v) (packageP name v)]
+      ∨ ∀ op ∈ atoms, op ∈ atomsAll (mkdirP fs (releaseP name v) ++ tmpOps) := by
+  intro atoms
+  have hfull : atomsAll (pushOps Impl.repaired fs name v pkg)
+      = atomsAll (mkdirP fs (releaseP name v) ++ tmpOps) ++ [Op.rename (packageTmpP name v) (packageP name v)] := by
+    show atomsAll (pushOps ⟨true, true⟩ fs name v pkg) = _
+    rw [hsplit, atomsAll_append]; rfl
+  cases hr : runSome fs (atomsAll (pushOps Impl.repaired fs name v pkg)) with
+  | mk fs' ok =>
+    cases ok with
+    | true =>
+      left
+      show atomsAll (runCalls fs [fun f => pushOps Impl.repaired f name v pkg]).calls.flatten = _
+      simp only [runCalls, hr, List.flatten_cons, List.flatten_nil, List.append_nil]
+      exact hfull
+    | false =>
+      right
+      intro op hop
+      have hop' : op ∈ (atomsAll (pushOps Impl.repaired fs name v pkg)).take
+          (okCount fs (atomsAll (pushOps Impl.repaired fs name v pkg))) := by
+        have : atoms = (atomsAll (pushOps Impl.repaired fs name v pkg)).take
+            (okCount fs (atomsAll (pushOps Impl.repaired fs name v pkg))) := by
+          show atomsAll (runCalls fs [fun f => pushOps Impl.repaired f name v pkg]).calls.flatten = _
+          simp only [runCalls, hr, List.flatten_cons, List.flatten_nil, List.append_nil, atomsAll_take_atoms]
+        rw [← this]; exact hop
+      have hlt := okCount_lt_of_fail (atomsAll (pushOps Impl.repaired fs name v pkg)) fs (by rw [hr])
+      rw [hfull] at hop' hlt
+      have hle : okCount fs (atomsAll (mkdirP fs (releaseP name v) ++ tmpOps)
+          ++ [Op.rename (packageTmpP name v) (packageP name v)]) ≤ (atomsAll (mkdirP fs (releaseP name v) ++ tmpOps)).length := by
+        simp at hlt; omega
+      rw [List.take_append_of_le_length hle] at hop'
+      exact List.mem_of_mem_take hop'
+
+/-- a publish hit by a transient I/O fault: it stops like a process death at that point, or — inside `copytree` — goes
+on below the invisible temporary name only -/
+theorem fault_publish_cases (fs : Fs) (gd : Good fs) (dp name v : Nat) (pkg : Pkg) (j : Nat) :
+    faultIn Impl.repaired fs (.publish dp name v pkg) j = crashIn Impl.repaired fs (.publish dp name v pkg) j none
+    ∨ (relListed fs name v = false ∧ QuietPub (faultIn Impl.repaired fs (.publish dp name v pkg) j) fs name v) := by
+  by_cases hq : faultAtoms (atomsAll (exec Impl.repaired fs (.publish dp name v pkg)).calls.flatten) j
+      = (atomsAll (exec Impl.repaired fs (.publish dp name v pkg)).calls.flatten).take j
+  · left; simp only [faultIn, crashIn, crashOps_none, hq]
+  · right
+    cases hg : publishGuard Impl.repaired fs dp name v with
+    | some e => exfalso; apply hq; simp [exec, hg, atomsAll, faultAtoms]
+    | none =>
+      obtain ⟨_, hmono⟩ := publishGuard_none fs dp name v hg
+      have hnl : relListed fs name v = false := by
+        cases hl : relListed fs name v with
+        | false => rfl
+        | true => have := hmono v ((mem_releasesOf fs name v).mpr hl); omega
+      have hex : exec Impl.repaired fs (.publish dp name v pkg)
+          = runCalls fs [fun f => pushOps Impl.repaired f name v pkg] := by simp [exec, hg]
+      obtain ⟨tmpOps, hsplit, htmp⟩ := pushOps_split true fs name v pkg
+      have hat := publish_atoms fs name v pkg tmpOps hsplit
+      refine ⟨hnl, ?_⟩
+      simp only [faultIn]
+      rw [hex] at hq ⊢
+      generalize atomsAll (runCalls fs [fun f => pushOps Impl.repaired f name v pkg]).calls.flatten = atoms at hq hat ⊢
+      have hlt : j < atoms.length := by
+        rcases Nat.lt_or_ge j atoms.length with h | h
+        · exact h
+        · exfalso; apply hq; rw [faultAtoms_all atoms j h, List.take_of_length_le h]
+      have hin : ∀ op ∈ faultAtoms atoms j, op ∈ atomsAll (mkdirP fs (releaseP name v) ++ tmpOps) := by
+        rcases hat with hat | hat
+        · rw [hat] at hlt ⊢; exact faultAtoms_init _ _ _ j hlt
+        · exact fun op hop => hat op (faultAtoms_mem atoms j op hop)
+      obtain ⟨n, hn⟩ := runSome_prefix (faultAtoms atoms j) fs
+      exact push_quiet_ops true fs _ name v pkg _
+        (fun op hop => ⟨tmpOps, htmp, hin op (List.mem_of_mem_take hop)⟩) hn
+
+/-- a step hit by a transient I/O fault at its `j`-th atomic micro-operation (it raises, the process lives on) leaves a
+good tree that shows the previous content — unless the fault came after the last micro-operation of a step that had
+completed: then the tree is the complete result -/
+theorem fault_left (fs : Fs) (gd : Good fs) (s : Step) (j : Nat) :
+    Good (faultIn Impl.repaired fs s j) ∧ (ViewEq (faultIn Impl.repaired fs s j) fs
+      ∨ ((exec Impl.repaired fs s).err = none ∧ faultIn Impl.repaired fs s j = (exec Impl.repaired fs s).fs)) := by
+  cases s with
+  | train p v ord sts =>
+    rw [faultIn_train]
+    exact step_left fs gd _ _ (Or.inr ⟨j, none, rfl⟩)
+  | publish dp name v pkg =>
+    rcases fault_publish_cases fs gd dp name v pkg j with h | ⟨hnl, hquiet⟩
+    · rw [h]; exact step_left fs gd _ _ (Or.inr ⟨j, none, rfl⟩)
+    · have hb := package_absent fs name v gd.wf hnl
+      have wx : WF (faultIn Impl.repaired fs (.publish dp name v pkg) j) := runSome_wf _ fs gd.wf
+      exact ⟨hquiet.good wx gd, Or.inl (hquiet.viewEq gd.wf hb)⟩
+
 /-- what a successful training adds -/
 theorem train_ok (fs : Fs) (_gd : Good fs) (p v ord : Nat) (sts : List (Nat × Bytes))
     (h : (exec Impl.repaired fs (.train p v ord sts)).err = none) :
@@ -290,21 +393,25 @@ theorem play_append (impl : Impl) (fs : Fs) (evs evs' : List Ev) :
   | nil => rfl
   | cons e r ih => simp only [List.cons_append, play]; exact ih _
 
-theorem apply_leftBy (fs : Fs) (ev : Ev) :
-    ∃ s, LeftBy fs s (apply Impl.repaired fs ev) := by
+/-- whatever an event does — a step run to its end, raising, killed, or hit by a transient I/O fault — the tree it
+leaves is good and shows the previous content or the complete result of a successful step -/
+theorem apply_left (fs : Fs) (gd : Good fs) (ev : Ev) :
+    ∃ s, Good (apply Impl.repaired fs ev) ∧ (ViewEq (apply Impl.repaired fs ev) fs
+      ∨ ((exec Impl.repaired fs s).err = none ∧ apply Impl.repaired fs ev = (exec Impl.repaired fs s).fs)) := by
   cases ev with
-  | step s => exact ⟨s, Or.inl rfl⟩
-  | crash s k cut => exact ⟨s, Or.inr ⟨k, cut, rfl⟩⟩
+  | step s => exact ⟨s, step_left fs gd s _ (Or.inl rfl)⟩
+  | crash s k cut => exact ⟨s, step_left fs gd s _ (Or.inr ⟨k, cut, rfl⟩)⟩
+  | fault s j => exact ⟨s, fault_left fs gd s j⟩
 
-/-- every tree a crash-recovery history leaves is well formed, healthy and gap-free -/
+/-- every tree a history — with process deaths and transient I/O faults — leaves is well formed, healthy and gap-free -/
 theorem history_good (evs : List Ev) : Good (play Impl.repaired Fs.empty evs) := by
   suffices h : ∀ fs, Good fs → Good (play Impl.repaired fs evs) from h _ empty_good
   induction evs with
   | nil => intro fs gd; exact gd
   | cons e r ih =>
     intro fs gd
-    obtain ⟨s, hs⟩ := apply_leftBy fs e
-    exact ih _ (step_left fs gd s _ hs).1
+    obtain ⟨s, hs⟩ := apply_left fs gd e
+    exact ih _ hs.1
 
 theorem vis_unlisted_rel (fs : Fs) (p v : Nat) (h : relListed fs p v = false) :
     ∀ key, releaseP p v <+: key → vis fs key = none := by
@@ -324,8 +431,8 @@ theorem vis_unlisted_rel (fs : Fs) (p v : Nat) (h : relListed fs p v = false) :
 /-- one more event never changes or removes anything a reader could see -/
 theorem apply_append_only (fs : Fs) (gd : Good fs) (ev : Ev) (key : Path) (n : Node)
     (hvis : vis fs key = some n) : vis (apply Impl.repaired fs ev) key = some n := by
-  obtain ⟨s, hs⟩ := apply_leftBy fs ev
-  rcases (step_left fs gd s _ hs).2 with hv | ⟨he, hx⟩
+  obtain ⟨s, hs⟩ := apply_left fs gd ev
+  rcases hs.2 with hv | ⟨he, hx⟩
   · rw [hv key]; exact hvis
   · rw [hx]
     cases s with
